@@ -32,7 +32,7 @@ class Foo(HasTraits):
 
 
 KINDS = ["const", "anylist", "anydict", "list", "dict", "set", "inst", "factory", "dyn", "tuplelist", "tuple3",
-         "unionlist", "dictlist", "listlist", "anysublist", "anyodict", "dynenumdyn", "uniondef", "tupledef", "unionany", "unionanydict", "mapdyn", "listanynested", "constnone", "listnone", "dynnone"]
+         "unionlist", "dictlist", "listlist", "anysublist", "anyodict", "dynenumdyn", "uniondef", "tupledef", "unionany", "unionanydict", "mapdyn", "listanynested", "constnone", "listnone", "dynnone", "sharedct"]
 
 
 class Tags(list):
@@ -57,6 +57,10 @@ def decl(kind):
         if kind == "listnone":
             return List(Int, [1, 2], comparison_mode=ComparisonMode.none), [1, 2]
         return List(Int, comparison_mode=ComparisonMode.none), [9]
+    if kind == "sharedct":
+        # ONE CTrait object used for two attributes of the class: this one (plain, default 5) and a sibling that has a
+        # `_<name>_default` method and a static handler - which belong to the sibling only
+        return Int(5).as_ctrait(), 5
     if kind == "listanynested":
         # a container default that holds a MUTABLE item (the per-instance copy of the default is shallow)
         return List(Any, [[1]]), [[1]]
@@ -106,7 +110,7 @@ def decl(kind):
     raise AssertionError(kind)
 
 
-ASSIGN = {"constnone": 1, "listnone": [3], "dynnone": [3], "listanynested": [[3]], "unionany": [3], "unionanydict": {"b": 2}, "mapdyn": "b", "uniondef": [3], "dynenumdyn": 3, "anysublist": [3], "anyodict": {"b": 2}, "const": 1, "anylist": [3], "anydict": {"b": 2}, "list": [3], "dict": {"b": 2}, "set": {3}, "inst": None,
+ASSIGN = {"sharedct": 1, "constnone": 1, "listnone": [3], "dynnone": [3], "listanynested": [[3]], "unionany": [3], "unionanydict": {"b": 2}, "mapdyn": "b", "uniondef": [3], "dynenumdyn": 3, "anysublist": [3], "anyodict": {"b": 2}, "const": 1, "anylist": [3], "anydict": {"b": 2}, "list": [3], "dict": {"b": 2}, "set": {3}, "inst": None,
           "factory": [3], "dyn": [3], "tuplelist": ([3], 1), "tupledef": ([3], 1), "tuple3": ("s", {"q": 1}, 2), "unionlist": [3],
           "dictlist": {"q": [3]}, "listlist": [[3]]}
 
@@ -195,6 +199,16 @@ def run(case, ctx):
                     return 2
                 return _d
             ns["_%s_default" % nm] = mke(nm)
+        if k == "sharedct":
+            sib = "sib_" + nm
+            ns[sib] = t                      # the SAME CTrait object
+
+            def mks(sib):
+                def _d(self):
+                    return 6
+                return _d
+            ns["_%s_default" % sib] = mks(sib)
+            ns["_%s_changed" % sib] = lambda self, old, new: log.append((self.__dict__.get("_serial"), "sibling-handler"))
         if k == "mapdyn":
             def mkm(nm):
                 def _d(self):
